@@ -23,3 +23,7 @@ def run(repo, res, tier):
     # every dialect that was evaluated is in the report: cells and column widths have the same length
     from .. import hookrules as _hkz
     _hkz.rule_zip_len(repo, res)
+
+    # the by-character fall-back for files with an undecodable tail reads bytes, also for an already-open text stream
+    from .. import apirules as _ap5
+    _ap5.rule_f5(repo, res)
